@@ -170,7 +170,7 @@ def m_C05(tier):
         for alg in BOUNDED:
             for km in ('raw', 'str', 'pickle'):
                 for backend in ('none', 'dict'):
-                    cfgs.append(C(mod, alg, 1, False, km, backend, nargs=3, spellings=1, depth=5, states=600 if tier == 'quick' else 5000))
+                    cfgs.append(C(mod, alg, 1, False, km, backend, nargs=3, spellings=1, depth=5, states=600 if tier == 'quick' else 2500))
     # many distinct keys on a small alphabet: LFU evicts two entries at a time, so bookkeeping left behind by
     # clear(keepstats=True) / a raising call / purge needs >= 5 distinct keys at maxsize 2 before it can overfill
     for mod in MODULES:
@@ -212,7 +212,7 @@ def m_C06(tier):
     for mod in MODULES:
         for alg in BOUNDED:
             for km in ('raw', 'str'):
-                cfgs.append(C(mod, alg, 2, False, km, 'none', nargs=4, spellings=0, depth=6, states=500 if tier == 'quick' else 5000))
+                cfgs.append(C(mod, alg, 2, False, km, 'none', nargs=4, spellings=0, depth=6, states=500 if tier == 'quick' else 2500))
     cfgs += narrow_configs(tier)
     # purge=True with the archive switched off is "without purge" too: the policy branch runs on bookkeeping that an
     # earlier whole-cache purge has been through
@@ -221,7 +221,7 @@ def m_C06(tier):
             for ms in ((2,) if tier == 'quick' else (1, 2, 3)):
                 cfgs.append(C(mod, alg, ms, True, 'default', 'dict', nargs=ms + 2, spellings=0,
                               narrow=[['arch', False], ['arch', True]], depth=7 if tier == 'quick' else 8,
-                              states=2500 if tier == 'quick' else 30000))
+                              states=2500 if tier == 'quick' else 6000))
     # "a hit never removes anything" also holds when the cache is over its bound (after a bulk load): calls + load/dump,
     # judged for hits only (the policy itself is undefined for entries the bookkeeping never saw)
     for mod in MODULES:
@@ -229,10 +229,10 @@ def m_C06(tier):
             for ms in ((1,) if tier == 'quick' else (1, 2)):
                 for purge in (False, True):
                     cfgs.append(C(mod, alg, ms, purge, 'default', 'dict', 'seeded_archive', nargs=3, spellings=0, hits_only=True,
-                                  depth=4 if tier == 'quick' else 5, states=600 if tier == 'quick' else 6000))
+                                  depth=4 if tier == 'quick' else 5, states=600 if tier == 'quick' else 2500))
                     # (one call of the table is new to the archive: after a bulk load it is the only entry with a recency)
                     cfgs.append(C(mod, alg, ms, purge, 'default', 'dict', 'seeded_archive_partial', nargs=3, spellings=0, hits_only=True,
-                                  depth=5 if tier == 'quick' else 6, states=800 if tier == 'quick' else 8000))
+                                  depth=5 if tier == 'quick' else 6, states=800 if tier == 'quick' else 3000))
     cfgs += [c for c in longuse_configs(tier, deep=True) if c['longuse'] == 'cycles']
     cfgs += scale_configs(tier)
     cfgs += rebuilt_configs(tier, 'C06')
@@ -252,7 +252,7 @@ def narrow_configs(tier):
                 for m in mgmt:
                     backend = 'dict' if m[0] in ('dump', 'load') else 'none'
                     cfgs.append(C(mod, alg, ms, False, 'default', backend, nargs=ms + 2, spellings=0,
-                                  narrow=[list(m)], depth=7 if tier == 'quick' else 8, states=2500 if tier == 'quick' else 30000))
+                                  narrow=[list(m)], depth=7 if tier == 'quick' else 8, states=2500 if tier == 'quick' else 6000))
     return cfgs
 
 
@@ -265,12 +265,12 @@ def longuse_configs(tier, backends=None, deep=True):
         for ms in ((1,) if tier == 'quick' else (1, 2)):
             for backend in (backends or (('none',) if tier == 'quick' else ('none', 'dict'))):
                 cfgs.append(C(mod, 'lru', ms, False, 'default', backend, nargs=2, spellings=1, longuse=True,
-                              depth=7 if tier == 'quick' else 9, states=1500 if tier == 'quick' else 12000))
+                              depth=7 if tier == 'quick' else 9, states=1500 if tier == 'quick' else 4000))
         if deep:
             # two compaction cycles, three keys: both macro lengths on both keys (bookkeeping damaged by one compaction
             # only shows at the next)
             cfgs.append(C(mod, 'lru', 1, False, 'default', (backends or ('none',))[0], nargs=3, spellings=0, longuse='cycles',
-                          depth=7 if tier == 'quick' else 9, states=3000 if tier == 'quick' else 30000))
+                          depth=7 if tier == 'quick' else 9, states=3000 if tier == 'quick' else 6000))
     return cfgs
 
 
@@ -291,7 +291,7 @@ def rebuilt_configs(tier, prop):
     """the decorator object is rebuilt from itself (copy.copy, or a dill round trip where nothing is shared with the
     harness) before it is applied: maxsize however it was passed, purge, keymap, ignore and tolerance must come through"""
     cfgs = []
-    lim = dict(depth=4, states=400) if tier == 'quick' else dict(depth=5, states=4000)
+    lim = dict(depth=4, states=400) if tier == 'quick' else dict(depth=5, states=2000)
     for mod in MODULES:
         for alg in ALL:
             ms = None if alg in ('no', 'inf') else 1
@@ -373,7 +373,7 @@ def m_C07(tier):
         for alg in BOUNDED:
             for purge in (False, True):
                 cfgs.append(C(mod, alg, 1, purge, 'default', 'refusing', nargs=3, spellings=0,
-                              depth=5, states=800 if tier == 'quick' else 5000))
+                              depth=5, states=800 if tier == 'quick' else 2500))
     cfgs += longuse_configs(tier, backends=('dict',))
     # larger maxsize with an archive attached (LFU evicts maxsize // 10 entries at a time there)
     cfgs += [dict(c, states=150 if tier == 'quick' else 3000) for c in scale_configs('thorough')
@@ -614,7 +614,7 @@ def make_monitors_for(prop):
 def twin_configs(tier):
     """a second function decorated by a second decorator of the same class (nothing shared by design)"""
     cfgs = []
-    lim = dict(depth=4, states=500) if tier == 'quick' else dict(depth=6, states=6000)
+    lim = dict(depth=4, states=500) if tier == 'quick' else dict(depth=5, states=3000)
     for mod in MODULES:
         for alg in ALL:
             ms = None if alg in ('no', 'inf') else 2
